@@ -31,8 +31,11 @@ pub fn vcf_text(cs: &CallSet) -> Vec<u8> {
     if contigs.is_empty() { contigs.push("1"); }
     for c in &contigs { s.push_str(&format!("##contig=<ID={c},length=100000000>\n")); }
     // `wide` dummy INFO definitions ahead of FORMAT/GT push GT's index in the BCF string dictionary up (past 127: a 16-bit key)
-    for k in 0..cs.wide { s.push_str(&format!("##INFO=<ID=X{k},Number=1,Type=Integer,Description=\"d{k}\">\n")); }
+    // (`wide` >= 1000: the `wide - 1000` definitions FOLLOW the FORMAT/GT line instead — GT then has dictionary index 1 whatever comes later)
+    let (before, after) = if cs.wide >= 1000 { (0, cs.wide - 1000) } else { (cs.wide, 0) };
+    for k in 0..before { s.push_str(&format!("##INFO=<ID=X{k},Number=1,Type=Integer,Description=\"d{k}\">\n")); }
     s.push_str("##FORMAT=<ID=GT,Number=1,Type=String,Description=\"Genotype\">\n");
+    for k in 0..after { s.push_str(&format!("##INFO=<ID=X{k},Number=1,Type=Integer,Description=\"d{k}\">\n")); }
     if cs.extras {
         s.push_str("##INFO=<ID=DP,Number=1,Type=Integer,Description=\"Depth\">\n");
         s.push_str("##INFO=<ID=AF,Number=A,Type=Float,Description=\"Frequency\">\n");
@@ -59,6 +62,14 @@ pub fn vcf_text(cs: &CallSet) -> Vec<u8> {
         match r.corrupt.as_deref() {
             Some("badpos") => { s.push_str(&format!("{}\tx{}\t.\t{}\t{}\t.\t.\t{}\t{}", r.contig, r.pos, ref_allele(i), alt, info, fmt)); }
             Some("trunc") => { s.push_str(&format!("{}\t{}\t.\tA\n", r.contig, r.pos)); continue; }
+            // a record that is complete but for ONE site-level column the VCF grammar refuses (ID / QUAL / FILTER / INFO): the reader
+            // reports the error at this site; the sample columns that follow are well-formed and differ from the previous record's
+            Some(k @ ("dupinfo" | "badinfo" | "badqual" | "dupid" | "dupfilter")) => {
+                let (id, qual, filter, inf) = match k { "dupinfo" => (".", ".", ".", "DP=17;DP=17"), "badinfo" => (".", ".", ".", "DP=7.5"), "badqual" => (".", "abc", ".", "."), "dupid" => ("rs1;rs1", ".", ".", "."), _ => (".", ".", "q10;q10", ".") };
+                s.push_str(&format!("{}\t{}\t{id}\tA\tC\t{qual}\t{filter}\t{inf}\tGT", r.contig, r.pos));
+                for j in 0..cs.cols.len() { s.push('\t'); s.push_str(["1/1", "0/1", "1|1", "0/0"][(i + j) % 4]); }
+                s.push('\n'); continue;
+            }
             _ => { s.push_str(&format!("{}\t{}\t.\t{}\t{}\t.\t.\t{}\t{}", r.contig, r.pos, ref_allele(i), alt, info, fmt)); }
         }
         for (j, g) in r.gts.iter().enumerate() {
@@ -155,14 +166,14 @@ fn typed_int_small_or_16(out: &mut Vec<u8>, v: usize) {
     if v < 127 { out.push(0x11); out.push(v as u8); } else { out.push(0x12); out.extend_from_slice(&(v as i16).to_le_bytes()); }
 }
 
-/// GT string -> BCF allele bytes ((allele+1)<<1 | phased); "." allele = 0
-fn gt_bytes(gt: &str) -> Option<Vec<u8>> {
+/// GT string -> BCF allele values ((allele+1)<<1 | phased); "." allele = 0
+fn gt_values(gt: &str) -> Option<Vec<i32>> {
     let mut out = Vec::new();
     let mut phased = false;
     let mut cur = String::new();
-    let mut push = |cur: &str, phased: bool, out: &mut Vec<u8>| -> Option<()> {
-        let v: i32 = if cur == "." { 0 } else { let a: i32 = cur.parse().ok()?; if a > 62 { return None; } (a + 1) << 1 };
-        out.push((v | if phased { 1 } else { 0 }) as u8); Some(())
+    let push = |cur: &str, phased: bool, out: &mut Vec<i32>| -> Option<()> {
+        let v: i32 = if cur == "." { 0 } else { let a: i32 = cur.parse().ok()?; if a > 1_000_000 { return None; } (a + 1) << 1 };
+        out.push(v | if phased { 1 } else { 0 }); Some(())
     };
     for c in gt.chars() {
         if c == '/' || c == '|' { push(&cur, phased, &mut out)?; cur.clear(); phased = c == '|'; } else { cur.push(c); }
@@ -178,8 +189,10 @@ pub fn raw_bcf_simple(cs: &CallSet) -> Option<Vec<u8>> {
     if contigs.is_empty() { contigs.push("1"); }
     let mut text = String::from("##fileformat=VCFv4.3\n##FILTER=<ID=PASS,Description=\"All filters passed\">\n");
     for c in &contigs { text.push_str(&format!("##contig=<ID={c},length=100000000>\n")); }
-    for k in 0..cs.wide { text.push_str(&format!("##INFO=<ID=X{k},Number=1,Type=Integer,Description=\"d{k}\">\n")); }
+    let (before, after) = if cs.wide >= 1000 { (0, cs.wide - 1000) } else { (cs.wide, 0) };
+    for k in 0..before { text.push_str(&format!("##INFO=<ID=X{k},Number=1,Type=Integer,Description=\"d{k}\">\n")); }
     text.push_str("##FORMAT=<ID=GT,Number=1,Type=String,Description=\"Genotype\">\n");
+    for k in 0..after { text.push_str(&format!("##INFO=<ID=X{k},Number=1,Type=Integer,Description=\"d{k}\">\n")); }
     text.push_str("#CHROM\tPOS\tID\tREF\tALT\tQUAL\tFILTER\tINFO\tFORMAT");
     for c in &cs.cols { text.push('\t'); text.push_str(c); }
     text.push('\n');
@@ -203,11 +216,23 @@ pub fn raw_bcf_simple(cs: &CallSet) -> Option<Vec<u8>> {
         for a in &alts[..nalt] { typed_string(&mut shared, a.as_bytes()); }
         shared.push(0x00);                                // FILTER: empty vector
         let mut indiv = Vec::new();
-        typed_int_small_or_16(&mut indiv, 1 + cs.wide);    // FORMAT key: GT's dictionary index (PASS = 0, then the INFO ids), in the smallest integer type that holds it
-        let enc: Vec<Vec<u8>> = r.gts.iter().map(|g| gt_bytes(g)).collect::<Option<_>>()?;
+        typed_int_small_or_16(&mut indiv, 1 + before);    // FORMAT key: GT's dictionary index (PASS = 0, then the INFO ids), in the smallest integer type that holds it
+        let enc: Vec<Vec<i32>> = r.gts.iter().map(|g| gt_values(g)).collect::<Option<_>>()?;
         let maxlen = enc.iter().map(|e| e.len()).max().unwrap_or(1);
-        if maxlen < 15 { indiv.push(((maxlen as u8) << 4) | 0x01); } else { return None; }
-        for e in &enc { indiv.extend_from_slice(e); for _ in e.len()..maxlen { indiv.push(0x81); } }
+        // the smallest integer type that holds every value of the record (as bcftools and htslib choose it): int8 up to allele 62,
+        // int16 up to 16382, int32 beyond
+        let top = enc.iter().flatten().copied().max().unwrap_or(0);
+        let ty: u8 = if top <= 127 { 1 } else if top <= 32767 { 2 } else { 3 };
+        if maxlen < 15 { indiv.push(((maxlen as u8) << 4) | ty); } else { return None; }
+        for e in &enc {
+            for k in 0..maxlen {
+                match (ty, e.get(k)) {
+                    (1, Some(v)) => indiv.push(*v as u8), (1, None) => indiv.push(0x81),
+                    (2, Some(v)) => indiv.extend_from_slice(&(*v as i16).to_le_bytes()), (2, None) => indiv.extend_from_slice(&[0x01, 0x80]),
+                    (_, Some(v)) => indiv.extend_from_slice(&v.to_le_bytes()), (_, None) => indiv.extend_from_slice(&[0x01, 0x00, 0x00, 0x80]),
+                }
+            }
+        }
         out.extend_from_slice(&(shared.len() as u32).to_le_bytes());
         out.extend_from_slice(&(indiv.len() as u32).to_le_bytes());
         out.extend(shared); out.extend(indiv);
